@@ -155,6 +155,9 @@ func runC12(p *Prog, r *Report) {
 	if want("C12.5") {
 		ruleDamageReported(p, r, "C12.5")
 	}
+	if want("C12.10") {
+		ruleRecordReaderFailure(p, r, "C12.10")
+	}
 	if want("C12.9") {
 		ruleResetEqualsNew(p, r, "C12.9")
 	}
